@@ -122,6 +122,13 @@ def opOfJson (j : Json) : Except String Op := do
   | "rm_rxns" => pure (.removeRxns (← (← (← j.getObjVal? "rs").getArr?).toList.mapM (·.getStr?)) (← (← j.getObjVal? "orphans").getBool?))
   | "imul" => pure (.imul (← s "r") (← parseRat (← s "k")))
   | "add_rxn" => pure (.addRxn (← s "r") (← parseEB (← s "lb")) (← parseEB (← s "ub")) (← pairsOf (← j.getObjVal? "st")))
+  | "add_boundary" => do
+    let t ← match (← s "type") with
+      | "exchange" => pure BType.exchange
+      | "demand" => pure BType.demand
+      | "sink" => pure BType.sink
+      | o => throw s!"unmodelled boundary type {o}"
+    pure (.addBoundary (← s "m") t (← (← j.getObjVal? "external").getBool?) (← parseEB (← s "dlb")) (← parseEB (← s "dub")))
   | "enter" => pure .enter
   | "exit" => pure .exit
   | _ => throw s!"unmodelled op {name}"
